@@ -6,21 +6,21 @@ Open Scope string_scope.
 
 (* (file, function, line, iterated expression, classification) of every iteration over a set-typed value *)
 Definition set_iteration_sites : list (string * string * nat * string * iter_kind) :=
-  [("sidemantic/sql/generator.py", "generate", 431, "all_models", Sorted);
-   ("sidemantic/sql/generator.py", "collect_models_from_metric", 611, "metric.get_dependencies(self.graph)", Sorted);
-   ("sidemantic/sql/generator.py", "collect_models_from_metric", 616, "self._extract_models_from_sql(metric.sql)", Sorted);
-   ("sidemantic/sql/generator.py", "collect_models_from_metric", 621, "self._extract_models_from_sql(metric.sql)", Sorted);
-   ("sidemantic/sql/generator.py", "_classify_filters_for_pushdown", 690, "all_models", Irrelevant);
-   ("sidemantic/sql/generator.py", "extract_from_measure_ref", 822, "deps", Sorted);
-   ("sidemantic/sql/generator.py", "extract_from_metric", 841, "deps", Sorted);
-   ("sidemantic/sql/generator.py", "extract_from_metric", 857, "deps", Sorted);
-   ("sidemantic/sql/generator.py", "collect_measures_from_metric", 1132, "measure.get_dependencies(self.graph, ref_model_name)", Sorted);
-   ("sidemantic/sql/generator.py", "collect_measures_from_metric", 1155, "measure.get_dependencies(self.graph, model_name)", Sorted);
-   ("sidemantic/sql/generator.py", "collect_measures_from_metric", 1166, "metric.get_dependencies(self.graph, model_name)", Sorted);
-   ("sidemantic/sql/generator.py", "_build_model_cte", 1177, "all_metric_columns", Sorted);
-   ("sidemantic/sql/generator.py", "_build_model_cte", 1194, "all_metric_columns", Irrelevant);
-   ("sidemantic/sql/generator.py", "_build_model_cte", 1200, "measures_needed", Sorted);
-   ("sidemantic/sql/generator.py", "_needs_preaggregation_for_fanout", 1363, "enumerate(metric_model_list)", Irrelevant);
-   ("sidemantic/sql/generator.py", "_build_metric_sql", 2210, "dependencies", Sorted);
-   ("sidemantic/sql/generator.py", "collect_leaf_base_metrics", 2579, "dependencies", Sorted);
-   ("sidemantic/sql/generator.py", "build_time_comparison_base_expression", 2723, "metric_obj.get_dependencies(self.graph, resolved_context)", Sorted)].
+  [("sidemantic/sql/generator.py", "generate", 437, "all_models", Sorted);
+   ("sidemantic/sql/generator.py", "collect_models_from_metric", 617, "metric.get_dependencies(self.graph)", Sorted);
+   ("sidemantic/sql/generator.py", "collect_models_from_metric", 622, "self._extract_models_from_sql(metric.sql)", Sorted);
+   ("sidemantic/sql/generator.py", "collect_models_from_metric", 627, "self._extract_models_from_sql(metric.sql)", Sorted);
+   ("sidemantic/sql/generator.py", "_classify_filters_for_pushdown", 696, "all_models", Irrelevant);
+   ("sidemantic/sql/generator.py", "extract_from_measure_ref", 828, "deps", Sorted);
+   ("sidemantic/sql/generator.py", "extract_from_metric", 847, "deps", Sorted);
+   ("sidemantic/sql/generator.py", "extract_from_metric", 863, "deps", Sorted);
+   ("sidemantic/sql/generator.py", "collect_measures_from_metric", 1138, "measure.get_dependencies(self.graph, ref_model_name)", Sorted);
+   ("sidemantic/sql/generator.py", "collect_measures_from_metric", 1161, "measure.get_dependencies(self.graph, model_name)", Sorted);
+   ("sidemantic/sql/generator.py", "collect_measures_from_metric", 1172, "metric.get_dependencies(self.graph, model_name)", Sorted);
+   ("sidemantic/sql/generator.py", "_build_model_cte", 1183, "all_metric_columns", Sorted);
+   ("sidemantic/sql/generator.py", "_build_model_cte", 1200, "all_metric_columns", Irrelevant);
+   ("sidemantic/sql/generator.py", "_build_model_cte", 1206, "measures_needed", Sorted);
+   ("sidemantic/sql/generator.py", "_needs_preaggregation_for_fanout", 1369, "enumerate(metric_model_list)", Irrelevant);
+   ("sidemantic/sql/generator.py", "_build_metric_sql", 2216, "dependencies", Sorted);
+   ("sidemantic/sql/generator.py", "collect_leaf_base_metrics", 2585, "dependencies", Sorted);
+   ("sidemantic/sql/generator.py", "build_time_comparison_base_expression", 2729, "metric_obj.get_dependencies(self.graph, resolved_context)", Sorted)].
